@@ -338,7 +338,28 @@ func Mutate(t *rapid.T, in []byte) []byte {
 		}
 		return interesting[sim.Intn(t, len(interesting), "ibyte")]
 	}
-	switch sim.Intn(t, 5, "mkind") {
+	switch sim.Intn(t, 7, "mkind") {
+	case 5: // neighbour: the byte next to the original one (off-by-one ends of the byte classes in the tables)
+		if sim.Bool(t, "up") {
+			out[pos]++
+		} else {
+			out[pos]--
+		}
+		return out
+	case 6: // a byte just outside a class, written over a byte inside a token of that class when there is one
+		for i := 0; i < len(out); i++ {
+			p := (pos + i) % len(out)
+			c := out[p]
+			switch {
+			case '0' <= c && c <= '9':
+				out[p] = "/:"[sim.Intn(t, 2, "edge")]
+				return out
+			case 'a' <= c && c <= 'f' || 'A' <= c && c <= 'F':
+				out[p] = "`g@G"[sim.Intn(t, 4, "edge")]
+				return out
+			}
+		}
+		return out[:pos]
 	case 0: // truncate
 		return out[:pos]
 	case 1: // flip
